@@ -95,6 +95,8 @@ c04_verify_shape!(c04_v1_shape_w1_k0, 0, 0, false, 0, false);
 c04_verify_shape!(c04_v1_shape_w2_k1_nested, 1, 1, true, 0, false);
 c04_verify_shape!(c04_v1_shape_w3_k2_nested_upvals, 2, 2, true, 1, true);
 c04_verify_shape!(c04_v1_shape_w1_k1_upval, 0, 1, false, 0, true);
+c04_verify_shape!(c04_v1_shape_w2_k1, 1, 1, false, 0, false);
+c04_verify_shape!(c04_v1_shape_w3_k2, 2, 2, false, 0, true);
 
 /// OpCode::from_u8 returns Some exactly for the bytes that are declared discriminants of the enum
 /// (VERIF_VALID_OPCODES is generated from opcode.rs by lib/opgen.py), and the value round-trips.
